@@ -1,5 +1,7 @@
 package hcv
 
+import "fmt"
+
 type controlResult struct {
 	Lines  []string
 	Failed []*Obligation
@@ -7,4 +9,15 @@ type controlResult struct {
 
 func runControls(prop string) controlResult { return controlResult{} }
 
-func runOverlayMutants(prop *Property, p *Prog, cfg LoadConfig, seed int) []string { return nil }
+func runOverlayMutants(prop *Property, p *Prog, cfg LoadConfig, seed int) []string {
+	res := RunMutants(cfg.Repo, prop.ID, 6)
+	var out []string
+	for _, r := range res {
+		line := fmt.Sprintf("%s %s expect=%s by=%v (%s)", r.Status, r.M.Name, r.M.Expect, r.By, r.M.Why)
+		out = append(out, line)
+		if r.Status == "SURVIVED" {
+			fmt.Printf("SELFTEST-WEAK %s/%s: seeded defect not reported (%s)\n", r.M.Prop, r.M.Name, r.M.Why)
+		}
+	}
+	return out
+}
